@@ -113,6 +113,9 @@ func (m *FMsg) Body() []byte {
 		}
 	case "ssl":
 		e.u32(ProtoSSL)
+		// (an SSLRequest that declares more than its 8 bytes: whatever follows the
+		// request code belongs to the request and to nothing else)
+		e.b = append(e.b, m.Data...)
 	case "gss":
 		e.u32(ProtoGSS)
 	case "cancel":
